@@ -252,6 +252,20 @@ class World:
 
         sh.cut(r"^<smallstr::string::SmallString<\[u8; 16\]> as std::cmp::Ord>::cmp$", "key_cmp", ret=key_cmp)
 
+        def key_partial_cmp(it, st, c, a):
+            rt = shape.ret_ty(it, c)
+            oty = P.types[rt]["variants"][1]["fields"][0]["ty"]
+            x, y = CP_RANK[W.key_of(st, a[0])], CP_RANK[W.key_of(st, a[1])]
+            return Agg(rt, 1, (Agg(oty, 0 if x < y else (1 if x == y else 2), ()),))
+
+        sh.cut(r"^<smallstr::string::SmallString<\[u8; 16\]> as std::cmp::PartialOrd>::partial_cmp$", "key_cmp", ret=key_partial_cmp)
+
+        for opn, fn in (("lt", lambda x, y: x < y), ("le", lambda x, y: x <= y), ("gt", lambda x, y: x > y), ("ge", lambda x, y: x >= y)):
+            sh.cut(r"^<smallstr::string::SmallString<\[u8; 16\]> as std::cmp::PartialOrd>::%s$" % opn, "key_cmp",
+                   ret=lambda it, st, c, a, fn=fn: Conc(int(fn(CP_RANK[W.key_of(st, a[0])], CP_RANK[W.key_of(st, a[1])]))))
+        sh.cut(r"^<smallstr::string::SmallString<\[u8; 16\]> as std::cmp::PartialEq>::ne$", "key_eq",
+               ret=lambda it, st, c, a: Conc(int(W.key_of(st, a[0]) != W.key_of(st, a[1]))))
+
         def val_cmp(it, st, c, a):
             x, y = (shape.deref(it, st, v, 4) for v in a[:2])
             if not all(isinstance(v, Top) and isinstance(v.tag, tuple) and v.tag[0] == "val" for v in (x, y)):
